@@ -6,8 +6,12 @@ ROOT = os.path.dirname(os.path.dirname(os.path.abspath(__file__)))
 REPO = os.environ.get("VERIF_REPO", "/repo")
 SPECS = os.path.join(ROOT, "specs")
 HARNESS = os.path.join(ROOT, "harness")
-EVIDENCE = os.path.join(ROOT, "evidence")
-REPLAYS = os.path.join(ROOT, "replays")
+# evidence and replay files describe /repo; a run pointed at another tree (VERIF_REPO, used to try
+# seeded changes) keeps its output away from them
+_ALT = os.path.abspath(REPO) != "/repo"
+_ALTDIR = os.path.join(tempfile.gettempdir(), "verif-alt-" + hashlib.sha1(os.path.abspath(REPO).encode()).hexdigest()[:10])
+EVIDENCE = os.environ.get("VERIF_EVIDENCE_DIR") or (os.path.join(_ALTDIR, "evidence") if _ALT else os.path.join(ROOT, "evidence"))
+REPLAYS = os.environ.get("VERIF_REPLAY_DIR") or (os.path.join(_ALTDIR, "replays") if _ALT else os.path.join(ROOT, "replays"))
 TLA_CP = "/opt/veriftools/tla/tla2tools.jar:/opt/veriftools/tla/CommunityModules-deps.jar"
 NCPU = os.cpu_count() or 4
 
